@@ -8,6 +8,8 @@ import Genq.Model.Types
 import Genq.Model.Codec
 import Genq.Model.CodecSkel
 import Genq.Extracted.Codec
+import Genq.Model.ConvSkel
+import Genq.Extracted.Conv
 namespace Genq.Types
 
 /-- **C19_bad_typename_is_error** — for every JSON value other than null and every list of
@@ -134,4 +136,11 @@ theorem C19_codec_template_tie :
     Extracted.unmarshalTmpl = CodecSkel.unmarshalTmpl ∧
     Extracted.unmarshalHelperTmpl = CodecSkel.unmarshalHelperTmpl ∧
     Extracted.flattenedFieldsSkeleton = CodecSkel.flattenedFieldsSkeleton := ⟨rfl, rfl, rfl⟩
+end Genq
+
+namespace Genq
+
+/-- **C19_possible_types_tie** — possibleObjectTypes: what the __typename switches list, as in /repo now (regenerated on every run), equal to the copy the model was written from -/
+theorem C19_possible_types_tie : Extracted.convertTypeSkeleton = ConvSkel.convertTypeSkeleton := rfl
+
 end Genq
